@@ -792,7 +792,10 @@ class _BufferedReceiver:
 
         # Notify _pump()
         if self._put_message_waiter is not None:
-            self._put_message_waiter.set_result(None)
+            # NOTE: The pump may have been cancelled (by close()) while it
+            #   was waiting for room; its waiter is then done already.
+            if not self._put_message_waiter.done():
+                self._put_message_waiter.set_result(None)
             self._put_message_waiter = None
 
         return message
